@@ -4,6 +4,7 @@ import (
 	"fmt"
 	"go/constant"
 	"go/token"
+	"go/types"
 	"sort"
 	"strings"
 
@@ -380,6 +381,13 @@ func (s *Search) eval(v ssa.Value, facts map[string]string) (val, known bool) {
 			}
 		}
 		if x.Op == token.EQL || x.Op == token.NEQ {
+			// two constants (e.g. an error variable that is nil on every path to the test)
+			if cl, ok := x.X.(*ssa.Const); ok {
+				if cr, ok := x.Y.(*ssa.Const); ok && types.Identical(cl.Type(), cr.Type()) {
+					eq := constStr(cl) == constStr(cr)
+					return eq == (x.Op == token.EQL), true
+				}
+			}
 			l, r := x.X, x.Y
 			if _, ok := l.(*ssa.Const); ok {
 				l, r = r, l
@@ -941,4 +949,77 @@ func IsCallTo(name string) func(ssa.Instruction) bool {
 // ClassFact builds an Assume entry for a condition class.
 func ClassFact(path string, val bool) (string, string) {
 	return "fld:" + path, fmt.Sprint(val)
+}
+
+// constCondValue: the value of a branch condition that compares two constants (after
+// normalisation an error variable can be the constant nil on every path to its test).
+func constCondValue(v ssa.Value) (val, known bool) {
+	pos := true
+	for {
+		if u, ok := v.(*ssa.UnOp); ok && u.Op == token.NOT {
+			pos = !pos
+			v = u.X
+			continue
+		}
+		break
+	}
+	if b, ok := ConstBool(v); ok {
+		return b == pos, true
+	}
+	if x, ok := v.(*ssa.BinOp); ok && (x.Op == token.EQL || x.Op == token.NEQ) {
+		if cl, ok := x.X.(*ssa.Const); ok {
+			if cr, ok := x.Y.(*ssa.Const); ok && types.Identical(cl.Type(), cr.Type()) {
+				eq := constStr(cl) == constStr(cr)
+				return (eq == (x.Op == token.EQL)) == pos, true
+			}
+		}
+	}
+	return false, false
+}
+
+var deadCache = map[*ssa.Function]map[*ssa.BasicBlock]bool{}
+
+// DeadBlocks: the blocks of fn that cannot be reached once branches on constant conditions are
+// folded.
+func DeadBlocks(fn *ssa.Function) map[*ssa.BasicBlock]bool {
+	if d, ok := deadCache[fn]; ok {
+		return d
+	}
+	live := map[*ssa.BasicBlock]bool{}
+	var walk func(b *ssa.BasicBlock)
+	walk = func(b *ssa.BasicBlock) {
+		if live[b] {
+			return
+		}
+		live[b] = true
+		if n := len(b.Instrs); n > 0 {
+			if iff, ok := b.Instrs[n-1].(*ssa.If); ok {
+				if v, known := constCondValue(iff.Cond); known {
+					if v {
+						walk(b.Succs[0])
+					} else {
+						walk(b.Succs[1])
+					}
+					return
+				}
+			}
+		}
+		for _, s := range b.Succs {
+			walk(s)
+		}
+	}
+	if len(fn.Blocks) > 0 {
+		walk(fn.Blocks[0])
+		if fn.Recover != nil {
+			walk(fn.Recover)
+		}
+	}
+	dead := map[*ssa.BasicBlock]bool{}
+	for _, b := range fn.Blocks {
+		if !live[b] {
+			dead[b] = true
+		}
+	}
+	deadCache[fn] = dead
+	return dead
 }
